@@ -61,13 +61,16 @@ def _space(chk):
         data_params = [p for p in fn.params if p in ("X", "Y", "data")]
         n_stages = 3 if "cross" in cname else 1
         found = 0
-        for c in ff.calls():
+        from .common import class_closure, closure_paths
+        clo = class_closure(pm, cls, fn)
+        for g, c in [(g, c) for g in clo for c in FuncFacts.of(g).calls()]:
             if not is_dot_call(c):
                 continue
             opn = dot_operands(c)
             data_side = comp_side = None
             for o in opn:
-                ps = ff.paths(o, spine_only=True)
+                # (the projection may live in a private helper: its parameters are read through the call sites)
+                ps = ff.paths(o, spine_only=True) if g is fn else closure_paths(pm, cls, fn, g, o, True, 0, clo)
                 if any(p.atom.kind == "param" and p.atom.name in data_params for p in ps):
                     data_side = (o, ps)
                 elif any((p.container_key() or ("", ""))[1].startswith("components") for p in ps):
@@ -90,10 +93,10 @@ def _space(chk):
                         through_whitener = True
             net = lower - raise_
             expect_fwd = (n_stages - net) if public else 0
-            chk.check(not through_whitener, "SPACE.project.kind", fn, c,
+            chk.check(not through_whitener, "SPACE.project.kind", g, c,
                       why="the components were mapped with a whitener *pattern* map (…_components) and are then used as projection weights; "
                           "patterns and weights coincide only for alpha = 1, so transform(training data) != scores for alpha < 1")
-            chk.check(fwd == expect_fwd and (public or net == 0), "SPACE.project.basis", fn, c,
+            chk.check(fwd == expect_fwd and (public or net == 0), "SPACE.project.basis", g, c,
                       why=f"data has passed {fwd} forward stage(s) but the components are expressed {net} stage(s) below the model space "
                           f"(expected {expect_fwd} forward stages): data and components live in different bases",
                       facts={"forward_stages_on_data": fwd, "component_net_lowering": net})
@@ -163,10 +166,10 @@ def _factor_keys_fit(ff: FuncFacts, fit: FuncInfo, score_key: str):
 def _factor_keys_transform(ff: FuncFacts, tr: FuncInfo, sinks):
     out = set()
     for e in sinks:
-        for p in ff.paths(e, spine_only=True):
+        for p in ff.paths(e, spine_only=True, follow=True):
             for o in p.ops:
                 if o.kind == "binop" and o.name in ("Mult", "Div") and o.side == "L":
-                    for q in ff.paths(o.other, spine_only=True):
+                    for q in ff.eval_in(o.frame, o.other, spine_only=True):
                         ck = q.container_key()
                         if ck is not None:
                             out.add((o.name, ck[0].split(".")[-1], ck[1]))
